@@ -7,7 +7,7 @@ name=$1; patch=$(realpath $2); shift 2
 wt=/tmp/try_$name
 git -C /repo worktree remove --force $wt 2>/dev/null
 git -C /repo worktree add -q $wt HEAD || exit 2
-if ! git -C $wt apply "$patch"; then echo "PATCH DOES NOT APPLY"; git -C /repo worktree remove --force $wt; exit 2; fi
+if ! git -C $wt apply "$patch" 2>/dev/null && ! git -C $wt apply --3way "$patch"; then echo "PATCH DOES NOT APPLY"; git -C /repo worktree remove --force $wt; exit 2; fi
 (cd $wt && GOFLAGS=-mod=mod GOPROXY=off go build ./... ) || { echo "DOES NOT BUILD"; git -C /repo worktree remove --force $wt; exit 2; }
 cd /verif
 for c in "$@"; do
